@@ -141,7 +141,13 @@ def eliminate_returns(stmts: list, res: str) -> Optional[list]:
                     return None
                 out.extend(r2)
             return out
-        if isinstance(st, (ast.For, ast.While, ast.With)) and _has(st, ast.Return):
+        if isinstance(st, ast.With) and _has(st, ast.Return):
+            nb = eliminate_returns(st.body + ([] if body_exits(st.body) == "return" else []), res)
+            if nb is None or body_exits(st.body) != "return":
+                return None
+            out.append(ast.copy_location(ast.With(items=st.items, body=nb), st))
+            return out
+        if isinstance(st, (ast.For, ast.While)) and _has(st, ast.Return):
             return None
         out.append(st)
     # fell off the end: implicit None
@@ -279,8 +285,7 @@ class Inliner:
         # expression-level inlining anywhere in this statement's own expressions
         self._inline_exprs(fi, st, stack)
         # statement-level inlining of a call evaluated once, unconditionally
-        call = self._once_call(fi, st, stack)
-        if call is not None:
+        for call in self._once_calls(fi, st, stack):
             callee = self.candidate(fi, call, stack)
             inst = self._instantiate(callee, call)
             if inst is not None:
@@ -315,35 +320,29 @@ class Inliner:
             return [i.context_expr for i in st.items]
         return []
 
-    def _once_call(self, fi, st, stack) -> Optional[ast.Call]:
-        """first inlinable call in st that is evaluated exactly once and unconditionally"""
+    def _once_calls(self, fi, st, stack) -> list:
+        """inlinable calls in st that are evaluated exactly once and unconditionally, innermost first"""
+        out = []
         for root in self._own_exprs(st):
-            found = self._walk_once(fi, root, stack)
-            if found is not None:
-                return found
-        return None
+            self._walk_once(fi, root, stack, out)
+        return out
 
-    def _walk_once(self, fi, e, stack) -> Optional[ast.Call]:
+    def _walk_once(self, fi, e, stack, out):
         if isinstance(e, (ast.Lambda, ast.ListComp, ast.SetComp, ast.DictComp, ast.GeneratorExp)):
-            return None
+            return
         if isinstance(e, ast.BoolOp):
-            return self._walk_once(fi, e.values[0], stack)
+            return self._walk_once(fi, e.values[0], stack, out)
         if isinstance(e, ast.IfExp):
-            return self._walk_once(fi, e.test, stack)
+            return self._walk_once(fi, e.test, stack, out)
         if isinstance(e, ast.Call):
             for a in ([e.func.value] if isinstance(e.func, ast.Attribute) else []) + list(e.args) + [k.value for k in e.keywords]:
-                f = self._walk_once(fi, a, stack)
-                if f is not None:
-                    return f
+                self._walk_once(fi, a, stack, out)
             if self.candidate(fi, e, stack) is not None:
-                return e
-            return None
+                out.append(e)
+            return
         for c in ast.iter_child_nodes(e):
             if isinstance(c, ast.expr):
-                f = self._walk_once(fi, c, stack)
-                if f is not None:
-                    return f
-        return None
+                self._walk_once(fi, c, stack, out)
 
     def _inline_exprs(self, fi, st, stack):
         """replace calls of expression-like helpers by their expression, anywhere (also in comprehensions, tests)"""
